@@ -11,7 +11,7 @@ LEVEL = "proof"
 SIDECARS = ["contracts.flow"]
 TARGETS = ["FlowGraph.__sort", "FlowGraph.__hoist", "FlowGraph.__build_loop_nest", "FlowGraph.__build_project_interval",
            "FlowGraph.__build_dyn_part", "FlowGraph.__connect_dyn_part", "FlowGraph.__build_output", "FlowGraph.__build_static_part",
-           "FlowGraph.__build_swizzle_root_fiber", "HiFiber.__trans_nodes"]
+           "FlowGraph.__build_swizzle_root_fiber", "FlowGraph.__build_fiber_nodes", "HiFiber.__trans_nodes"]
 EXPLANATION = (
     "Contracts on the real functions: __sort yields a topological order (assumed networkx contract); __hoist "
     "preserves 'no edge from a later to an earlier position' for every graph and every initial order (inner-loop "
@@ -31,7 +31,11 @@ EXPLANATION = (
     "PartNode; __build_output: Output -> TensorNode -> GetRootNode of the output; __build_static_part: the source rank (or "
     "the flattening swizzle) feeds the PartNode, every resulting rank and the Graphics node come after it; "
     "__build_swizzle_root_fiber: TensorNode -> SwizzleNode(loop-order) -> GetRootNode -> FiberNode, every current rank before "
-    "the swizzle, a static swizzle before the Graphics node.")
+    "the swizzle, a static swizzle before the Graphics node; __build_fiber_nodes: for the loop rank r the iteration graph "
+    "reports - FiberNode(fiber before) -> LoopNode(r) for EVERY co-iterated tensor, LoopNode(r) -> FiberNode(fiber inside) for "
+    "every tensor handed back, and for every discordant access: its fiber -> GetPayloadNode, LoopNode(final id of EVERY rank of "
+    "the access) -> GetPayloadNode, GetPayloadNode -> the fiber it yields (its first loop, which calls __connect_dyn_part, is "
+    "abstracted as an arbitrary change of the edge set).")
 TRUSTED = ["networkx contracts (topological_sort, descendants, add_edge) as stated in contracts/flow.py",
            "meta-lemma: chain edges + topological order => Loop(r1) < ... < Loop(rn) < Body < EndLoop(rn) < ... < EndLoop(r1)",
            "list.index(LoopNode(rank)) finds the node (meta-argument from the proved rearrangement invariant and the caller's "
